@@ -225,6 +225,42 @@ def run(check, repo: Repo) -> None:
     ok = "cloned.logger = self.logger.clone()" in ct and "cloned.to(device)" in ct
     check.decide(ok, "C05-R6", "clone: logger and device are set on both arms", "", tmod.line(clone), fail_detail="clone does not restore logger / device after either arm")
 
+    # ---- R8 borrowed serializer rule instances the checkpoint depends on (snapshot lists are element-wise encoded sequences) --------------------
+    from ..core.report import SubCheck
+    from . import c01 as _c01
+    _c01._rule_sequence_order(SubCheck(check, "C05-R8"), repo)
+    _c01._rule_probe_handlers(SubCheck(check, "C05-R8"), repo)
+
+    # ---- R9 new optimizers ⇒ schedulers are re-created for them ---------------------------------------------------------------------------------
+    # a scheduler holds a reference to ITS optimizer; after set_optimizers() the old schedulers step discarded optimizers until a device move /
+    # save / clone happens to re-link them — an interrupted run then decays the learning rate differently from the uninterrupted one
+    tmod9, rec9 = repo.func(f"{PT}:Ptychography.reconstruct")
+    r9 = CFG(rec9)
+    so = [c for c in calls_in(rec9) if (call_name(c) or "") == "self.set_optimizers"]
+    ssch = [c for c in calls_in(rec9) if (call_name(c) or "") == "self.set_schedulers"]
+    if len(so) != 1 or len(ssch) != 1:
+        raise AnalysisError("Ptychography.reconstruct: set_optimizers / set_schedulers call not found")
+    so_node, ss_node = r9.node_containing(so[0])[0], r9.node_containing(ssch[0])[0]
+    so_guards = [t for t, pol in r9.guards_of(so_node) if pol]
+    ss_guards = [(t, pol) for t, pol in r9.guards_of(ss_node) if pol]
+    implied, why9 = False, ""
+    if not ss_guards:
+        implied, why9 = True, "set_schedulers is unconditional"
+    for t, _pol in ss_guards:
+        so_names = set().union(*[names_in(g) for g in so_guards]) if so_guards else set()
+        if so_names and so_names <= names_in(t) | {"self"} and so_names & names_in(t):
+            implied, why9 = True, f"`{unparse(t)}` covers the condition of set_optimizers"
+        elif isinstance(t, ast.Name):
+            # flag idiom: raised in the same block in which set_optimizers() runs
+            par = parent_block(rec9, so[0])
+            raised = [s_ for s_ in par if isinstance(s_, ast.Assign) and any(isinstance(x, ast.Name) and x.id == t.id for x in s_.targets) and is_const(s_.value, True)]
+            lowered = [s_ for s_ in ast.walk(rec9) if isinstance(s_, ast.Assign) and any(isinstance(x, ast.Name) and x.id == t.id for x in s_.targets) and is_const(s_.value, False)]
+            implied = bool(raised) and not lowered
+            why9 = f"flag `{t.id}` " + ("is raised next to set_optimizers()" if implied else "is not raised where set_optimizers() runs")
+    check.decide(implied and ss_node in r9.reachable_from(so_node), "C05-R9", "reconstruct: whenever new optimizers are created the schedulers are re-created for them", why9,
+                 tmod9.line(ssch[0]), fail_detail=f"{why9 or 'set_schedulers is guarded by ' + str([unparse(t) for t, _ in ss_guards])}: a call that passes only optimizer_params leaves each "
+                                                  f"scheduler bound to the discarded optimizer")
+
     # ---- R7 recorded preprocessing parameters are the ones that were used ---------------------------------------------------------
     DMm = "quantem.diffractive_imaging.dataset_models"
     dmod, pre = repo.func(f"{DMm}:PtychographyDatasetRaster.preprocess")
@@ -297,6 +333,19 @@ def _reaches_reconnect(repo: Repo, mod, cls, to: ast.FunctionDef, depth: int):
             ok, why = _reaches_reconnect(repo, m, c, nxt, depth + 1)
             return ok, f"{cls.name}.to → super → {why}"
     return False, f"{cls.name}.to → super().to resolves outside quantem (nn.Module.to): reconnect is never called"
+
+
+def parent_block(fn: ast.AST, node: ast.AST) -> list:
+    """the statement list that contains the statement enclosing `node`"""
+    for blk_owner in ast.walk(fn):
+        for fld in ("body", "orelse", "finalbody"):
+            blk = getattr(blk_owner, fld, None)
+            if isinstance(blk, list):
+                for st in blk:
+                    if isinstance(st, ast.stmt) and any(x is node for x in ast.walk(st)) and not any(
+                            isinstance(getattr(st, f2, None), list) and any(any(y is node for y in ast.walk(s2)) for s2 in getattr(st, f2)) for f2 in ("body", "orelse", "finalbody", "handlers")):
+                        return blk
+    return []
 
 
 MANIFEST = {
